@@ -214,17 +214,20 @@ def one_case(rng, tier):
     return out, desc
 
 
-def run_update(root, hashes, sort, watermark=None, fmt=None, profile=None, force=False, shuffle=None):
+def run_update(root, hashes, sort, watermark=None, fmt=None, profile=None, force=False, shuffle=None, order=None, path=''):
     from gemato.recursiveloader import ManifestRecursiveLoader
     from gemato.exceptions import GematoException
     import logging
     logging.disable(logging.CRITICAL)
     real_scandir = os.scandir
-    if shuffle is not None:
+    if shuffle is not None or order is not None:
         class _SD:
             def __init__(self, it):
                 self.items = list(it)
-                shuffle.shuffle(self.items)
+                if order is not None:
+                    self.items.sort(key=lambda de: de.name, reverse=(order == 'desc'))
+                else:
+                    shuffle.shuffle(self.items)
                 self.it = it
 
             def __enter__(self):
@@ -250,7 +253,7 @@ def run_update(root, hashes, sort, watermark=None, fmt=None, profile=None, force
             kw['profile'] = profile
         m = ManifestRecursiveLoader(os.path.join(root, 'Manifest'), hashes=hashes, sort=sort,
                                     compress_watermark=watermark, compress_format=fmt, **kw)
-        m.update_entries_for_directory('')
+        m.update_entries_for_directory(path)
         m.save_manifests(force=force)
         return 0
     except GematoException as e:
@@ -309,6 +312,10 @@ def subdir_case(rng):
         if st != 0:
             out.append({'what': 'C10/C18 sub-directory update failed: %r' % (st,), 'key': 'subdir-status', 'props': ['C18', 'C10']})
             return out
+        ts_after = [x for x in special_lines(root) if x[1][0] == 'TIMESTAMP']
+        if ts_after != [('', ('TIMESTAMP', '2020-01-01T00:00:00Z'))]:
+            out.append({'what': 'C10 sub-directory update (no --timestamp) changed the TIMESTAMP entry: %s' % (ts_after,),
+                        'key': 'subdir-timestamp', 'props': ['C10']})
         after = outside_entries(root, 'sub')
         if before != after:
             lost = [x for x in before if x not in after]
@@ -537,6 +544,197 @@ def watermark_case(rng):
     return out
 
 
+def _post_update_checks(root, hashes, tag, out, props_desc=None):
+    """describes_exactly + fresh verify + second-run idempotence (library update with the given hashes)"""
+    probs = C.describes_exactly(root, hashes)
+    if probs:
+        out.append({'what': 'C03 %s: Manifests do not describe the tree: %s' % (tag, probs[:3]), 'key': 'describes:' + tag, 'props': ['C03']})
+    v = C.run_cli(['verify', root])
+    if v != 0:
+        out.append({'what': 'C03 %s: fresh verification after update: %r' % (tag, v), 'key': 'verify-after:' + tag, 'props': ['C03']})
+
+
+def prefix_sibling_case(rng):
+    """sibling directories where one name is a string prefix of the other, the shorter one with its own Manifest, a new
+    file in the longer one; both enumeration orders (C03: covered by the governing Manifest; C12: canonical, idempotent)"""
+    out = []
+    short, long_ = rng.choice([('lib', 'lib64'), ('doc', 'docs'), ('net', 'net-misc'), ('a', 'ab'), ('foo', 'foo-bin'), ('x', 'x.d')])
+    hashes = ['SHA1', 'SHA512']
+    results = {}
+    for order in ('asc', 'desc'):
+        with C.Scratch() as root:
+            C.make_tree(root, {short + '/f': b'ffff', long_ + '/h': b'hh', 'c/x': b'x', 'top': b't'})
+            C.write_manifest(os.path.join(root, short, 'Manifest'), [])
+            C.write_manifest(os.path.join(root, 'Manifest'), [])
+            st = run_update(root, hashes, True)
+            if st != 0:
+                out.append({'what': 'C18 prefix-siblings: initial update %r' % (st,), 'key': 'update-status:prefix-siblings', 'props': ['C18']})
+                return out, 1
+            with open(os.path.join(root, long_, 'new.txt'), 'wb') as fh:
+                fh.write(b'new file')
+            st = run_update(root, hashes, True, order=order)
+            if st != 0:
+                out.append({'what': 'C18 prefix-siblings: update %r' % (st,), 'key': 'update-status:prefix-siblings', 'props': ['C18']})
+                return out, 2
+            _post_update_checks(root, hashes, 'prefix-siblings', out)
+            m1 = manifest_files(root)
+            results[order] = {k: v[0] for k, v in m1.items()}
+            st2 = run_update(root, hashes, True, order=order)
+            m2 = manifest_files(root)
+            if st2 != 0 or m1 != m2:
+                out.append({'what': 'C12 prefix-siblings (%s/%s, %s): second update on an unchanged tree rewrote %s' % (
+                    short, long_, order, sorted(k for k in set(m1) | set(m2) if m1.get(k) != m2.get(k))[:4]),
+                    'key': 'idempotence:prefix-siblings', 'props': ['C12']})
+    if results.get('asc') != results.get('desc'):
+        out.append({'what': 'C12 prefix-siblings (%s/%s): sorted Manifests depend on the enumeration order: %s' % (
+            short, long_, sorted(k for k in set(results['asc']) | set(results['desc']) if results['asc'].get(k) != results['desc'].get(k))[:4]),
+            'key': 'canonical:prefix-siblings', 'props': ['C12']})
+    return out, 8
+
+
+def sibling_chain_case(rng):
+    """Manifests of one directory referencing each other in a chain (Manifest -> Manifest.a -> Manifest.b ...): the file
+    listed by the last one is edited; every MANIFEST entry must describe the final bytes of its target"""
+    out = []
+    n = rng.choice([2, 3, 4])
+    names = ['Manifest'] + ['Manifest.' + x for x in 'abcd'[:n - 1]]
+    hashes = ['SHA256', 'SHA512']
+    with C.Scratch() as root:
+        C.make_tree(root, {'sub/data.txt': b'data', 'sub/other': b'o', 'top': b't'})
+        # innermost first
+        prev = None
+        for i in range(n - 1, -1, -1):
+            lines = []
+            if i == n - 1:
+                lines.append(C.entry_line('DATA', 'data.txt', b'data', hashes))
+            if i == 0:
+                lines.append(C.entry_line('DATA', 'other', b'o', hashes))
+            if prev is not None:
+                with open(os.path.join(root, 'sub', prev), 'rb') as fh:
+                    lines.append(C.entry_line('MANIFEST', prev, fh.read(), hashes))
+            rng.shuffle(lines)
+            C.write_manifest(os.path.join(root, 'sub', names[i]), lines)
+            prev = names[i]
+        with open(os.path.join(root, 'sub', 'Manifest'), 'rb') as fh:
+            C.write_manifest(os.path.join(root, 'Manifest'), [C.entry_line('MANIFEST', 'sub/Manifest', fh.read(), hashes),
+                                                              C.entry_line('DATA', 'top', b't', hashes)])
+        if C.run_cli(['verify', root]) != 0:
+            out.append({'what': 'harness error: sibling chain does not verify before the edit', 'key': 'harness', 'props': ['C03']})
+            return out, 1
+        with open(os.path.join(root, 'sub', 'data.txt'), 'wb') as fh:
+            fh.write(b'edited data')
+        st = C.run_cli(['update', '--hashes', ' '.join(hashes), root])
+        if st != 0:
+            out.append({'what': 'C18 sibling chain of %d: update %r' % (n, st), 'key': 'update-status:sibling-chain', 'props': ['C18']})
+            return out, 2
+        _post_update_checks(root, hashes, 'sibling-chain', out)
+        m1 = manifest_files(root)
+        st2 = C.run_cli(['update', '--hashes', ' '.join(hashes), root])
+        m2 = manifest_files(root)
+        if st2 != 0 or m1 != m2:
+            out.append({'what': 'C12 sibling chain of %d: second update rewrote %s' % (n, sorted(k for k in m1 if m1.get(k) != m2.get(k))[:4]),
+                        'key': 'idempotence:sibling-chain', 'props': ['C12']})
+    return out, 4
+
+
+def dup_hashsets_case(rng):
+    """one file listed by the parent and by the sub-Manifest with different (correct) hash sets: (a) lookups and
+    verification leave the loaded Manifests alone, so that a later save elsewhere does not rewrite those entries (C10);
+    (b) an update with the union of the hashes leaves Manifests that carry every requested hash and are stable (C03, C12)"""
+    out = []
+    h_parent, h_child = rng.choice([(['SHA512'], ['SHA256']), (['MD5'], ['SHA512']), (['SHA1', 'MD5'], ['SHA1', 'SHA256'])])
+    union = sorted(set(h_parent) | set(h_child))
+
+    def build(root):
+        C.make_tree(root, {'sub/x': b'hello', 'sub/y': b'yy', 'other/o': b'o'})
+        C.write_manifest(os.path.join(root, 'sub', 'Manifest'), [C.entry_line('DATA', 'x', b'hello', h_child),
+                                                                 C.entry_line('DATA', 'y', b'yy', union)])
+        with open(os.path.join(root, 'sub', 'Manifest'), 'rb') as fh:
+            sm = fh.read()
+        C.write_manifest(os.path.join(root, 'Manifest'), [C.entry_line('MANIFEST', 'sub/Manifest', sm, union),
+                                                          C.entry_line('DATA', 'sub/x', b'hello', h_parent),
+                                                          C.entry_line('DATA', 'other/o', b'o', union)])
+    # (a) lookups, then an update elsewhere through the same loader
+    with C.Scratch() as root:
+        build(root)
+        from gemato.recursiveloader import ManifestRecursiveLoader
+        import logging
+        logging.disable(logging.CRITICAL)
+        try:
+            m = ManifestRecursiveLoader(os.path.join(root, 'Manifest'), hashes=union, allow_xdev=True, max_jobs=1)
+            before = outside_entries(root, 'other')
+            ok = m.assert_directory_verifies('sub')
+            m.get_file_entry_dict('')
+            m.find_path_entry('sub/x')
+            m.verify_path('sub/x')
+            with open(os.path.join(root, 'other', 'new'), 'wb') as fh:
+                fh.write(b'n')
+            m.update_entries_for_directory('other')
+            m.save_manifests()
+            after = outside_entries(root, 'other')
+            if before != after:
+                out.append({'what': 'C10 lookups changed loaded entries, written out by a later save elsewhere: lost %s gained %s' % (
+                    [x for x in before if x not in after][:2], [x for x in after if x not in before][:2]),
+                    'key': 'lookup-mutates:dup-hashsets', 'props': ['C10']})
+        except BaseException as e:
+            out.append({'what': 'C18 lookups/update on duplicate entries with different hash sets: %s: %s' % (type(e).__name__, e),
+                        'key': 'update-status:dup-hashsets', 'props': ['C18']})
+        finally:
+            logging.disable(logging.NOTSET)
+    # (b) update with the union
+    with C.Scratch() as root:
+        build(root)
+        st = run_update(root, union, False)
+        if st != 0:
+            out.append({'what': 'C18 dup-hashsets: update %r' % (st,), 'key': 'update-status:dup-hashsets', 'props': ['C18']})
+            return out, 2
+        _post_update_checks(root, union, 'dup-hashsets', out)
+        m1 = manifest_files(root)
+        st2 = run_update(root, union, False)
+        m2 = manifest_files(root)
+        if st2 != 0 or m1 != m2:
+            out.append({'what': 'C12 dup-hashsets (parent %s, child %s): second update on an unchanged tree rewrote %s' % (
+                h_parent, h_child, sorted(k for k in m1 if m1.get(k) != m2.get(k))[:4]), 'key': 'idempotence:dup-hashsets', 'props': ['C12']})
+    return out, 5
+
+
+def profile_watermark_case(rng):
+    """C13 through a profile that sets loader options: an explicit watermark (0 included) wins over the profile default"""
+    out = []
+    from gemato.profile import EbuildRepositoryProfile, BackwardsCompatEbuildRepositoryProfile, DefaultProfile
+    prof = rng.choice([EbuildRepositoryProfile, BackwardsCompatEbuildRepositoryProfile, DefaultProfile])
+    wm = rng.choice([0, 0, 1, 60, 10 ** 6])
+    fmt = rng.choice(['gz', 'bz2', 'xz'])
+    start_compressed = rng.random() < 0.5
+    with C.Scratch() as root:
+        C.make_tree(root, {'empty/.keep': b'', 'small/a': b'a', 'small/deep/b': b'b', 'big/' + 'n' * 40: b'x' * 10, 'big/m': b'm', 'big/k': b'k'})
+        for d in ('empty', 'small', 'small/deep', 'big'):
+            C.write_manifest(os.path.join(root, d, 'Manifest'), [])
+        C.write_manifest(os.path.join(root, 'Manifest'), [])
+        st = run_update(root, ['SHA1'], False, watermark=(0 if start_compressed else 10 ** 7), fmt='gz', force=True)
+        st = run_update(root, ['SHA1'], False, watermark=wm, fmt=fmt, profile=prof(), force=True)
+        desc = {'profile': prof.__name__, 'watermark': wm, 'format': fmt, 'start_compressed': start_compressed}
+        if st != 0:
+            out.append(dict(desc, what='C13/C18 save with watermark under a profile failed: %r' % (st,), key='wm-status:profile', props=['C18', 'C13']))
+            return out, 1
+        for d in ('empty', 'small', 'small/deep', 'big'):
+            have = sorted(f for f in os.listdir(os.path.join(root, d)) if f.startswith('Manifest'))
+            if len(have) != 1:
+                out.append(dict(desc, what='C13 %s: %d Manifest files %s' % (d, len(have), have), key='wm-one-file:profile', props=['C13']))
+                continue
+            with C.open_any(os.path.join(root, d, have[0]), 'rb') as f:
+                unc = len(f.read())
+            compressed = have[0] != 'Manifest'
+            if compressed != (unc >= wm):
+                out.append(dict(desc, what='C13 %s/%s under profile %s: uncompressed size %d, explicit watermark %d, compressed=%s' % (
+                    d, have[0], prof.__name__, unc, wm, compressed), key='wm-rule:profile', props=['C13']))
+        if sorted(f for f in os.listdir(root) if f.startswith('Manifest')) != ['Manifest']:
+            out.append(dict(desc, what='C13 top-level Manifest renamed', key='wm-top:profile', props=['C13']))
+        if C.run_cli(['verify', root]) != 0:
+            out.append(dict(desc, what='C13 tree does not verify after re-compression under a profile', key='wm-verify:profile', props=['C13']))
+    return out, 3
+
+
 def main():
     repo, tier, seed, prop = sys.argv[1], sys.argv[2], int(sys.argv[3]), sys.argv[4]
     C.add_repo(repo)
@@ -565,6 +763,25 @@ def main():
             viol.extend(dist_same_name_case(rng))
             evals += 2
             distinct.add('subdir%d' % i)
+    if prop in ('C03', 'C10', 'C12', 'C18'):
+        for i in range(6 if tier == 'quick' else 40):
+            for fn in (prefix_sibling_case, sibling_chain_case, dup_hashsets_case):
+                try:
+                    v, k = fn(rng)
+                except BaseException as e:
+                    v, k = [{'what': 'harness error in %s: %s: %s' % (fn.__name__, type(e).__name__, e), 'key': 'harness', 'props': [prop]}], 0
+                viol.extend(v)
+                evals += k
+                distinct.add('%s%d' % (fn.__name__, i))
+    if prop in ('C13',):
+        for i in range(24 if tier == 'quick' else 300):
+            try:
+                v, k = profile_watermark_case(rng)
+            except BaseException as e:
+                v, k = [{'what': 'harness error in profile_watermark_case: %s: %s' % (type(e).__name__, e), 'key': 'harness', 'props': [prop]}], 0
+            viol.extend(v)
+            evals += k
+            distinct.add('pwm%d' % i)
     if prop in ('C06',):
         v, k = fault_update_case(rng)
         viol.extend(v)
